@@ -194,4 +194,79 @@ MovesReroot(h, kn) ==
 
 SrcHeapsOne == [k \in DOMAIN SrcPairs |-> <<SrcTables[SrcPairs[k][1]]>>]
 
+---------------------------------------------------------------------------
+(* C15: documented equivalences, instantiated on the left table (optionally after one preparatory verb);   *)
+(* heap = <<t, partner>>: the partner is the join / union operand                                           *)
+EquivMoves(h, i) ==
+    LET t  == h[i]
+        iv == Take(VisOfTy(t, "int"), 3)
+        a  == IF Len(iv) >= 1 THEN iv[1] ELSE 0
+        b  == IF Len(iv) >= 2 THEN iv[2] ELSE a
+        g  == ColOf(t, "g")
+        e1 == <<Fn2("add", Col(a), LitI(1)), Fn2("mul", Col(b), Col(a)), Agg("sum", Col(b)),
+                Win("rank", <<>>, <<Ord(Col(a), FALSE, "first")>>), Case1D(Fn2("gt", Col(a), LitI(0)), Col(b), LitI(0))>>
+        e2 == <<Fn2("sub", Col(b), LitI(2)), Fn2("floordiv", Col(a), LitI(2)), Agg("max", Col(a)),
+                Fn2("fill_null", Col(a), LitI(-1))>>
+        ps == <<Fn2("gt", Col(a), LitI(0)), Fn2("le", Col(b), LitI(3)), Fn1("is_not_null", Col(a)), Fn2("ne", Col(a), Col(b))>>
+        o2 == <<Ord(Col(b), TRUE, "last"), Ord(Col(a), FALSE, "first")>>
+        o3 == <<Ord(Col(a), TRUE, "last"), Ord(Col(b), FALSE, "first")>>
+        wins == <<Shift(Col(b), 1, <<>>, <<>>), Win("row_number", <<>>, <<>>), Shift(Col(a), -1, <<LitI(0)>>, <<>>)>>
+        withOrd(w, os, pp) == [w EXCEPT !.ord = os, !.pk = "ids", !.part = pp]
+        r  == h[2]
+        ra == ColOf(r, "a")
+        rb == ColOf(r, "b")
+    IN  IF iv = <<>> THEN <<>> ELSE
+        \* one mutate / filter with several independent arguments vs one call per argument
+        Flat(MapS(e1, LAMBDA x : MapS(e2, LAMBDA y :
+            MEquiv(i, "mutate_split", <<MMutate(0, <<KV("x", x), KV("y", y)>>)>>, <<MMutate(0, <<KV("x", x)>>), MMutate(0, <<KV("y", y)>>)>>, FALSE))))
+        \o Flat(MapS(ps, LAMBDA x : MapS(ps, LAMBDA y :
+            MEquiv(i, "filter_split", <<MFilter(0, <<x, y>>)>>, <<MFilter(0, <<x>>), MFilter(0, <<y>>)>>, FALSE))))
+        \* group_by(g) >> arrange(o) >> mutate(f(x)) >> ungroup()  vs  mutate(f(x, partition_by=g, arrange=o))
+        \o Flat(MapS(g, LAMBDA gc : Flat(MapS(<<o2, o3>>, LAMBDA oo : MapS(wins, LAMBDA w :
+            MEquiv(i, "group_window",
+                   <<MGroupBy(0, <<Col(gc)>>, FALSE), MArrange(0, oo), MMutate(0, <<KV("w", w)>>), MUngroup(0)>>,
+                   <<MMutate(0, <<KV("w", withOrd(w, oo, <<Col(gc)>>))>>)>>, FALSE))))))
+        \o Flat(MapS(g, LAMBDA gc : MapS(<<Agg("sum", Col(b)), Len0, Agg("max", Col(a))>>, LAMBDA w :
+            MEquiv(i, "group_agg",
+                   <<MGroupBy(0, <<Col(gc)>>, FALSE), MMutate(0, <<KV("w", w)>>), MUngroup(0)>>,
+                   <<MMutate(0, <<KV("w", [w EXCEPT !.pk = "ids", !.part = <<Col(gc)>>])>>)>>, FALSE))))
+        \* drop(c) vs select of the complement
+        \o (IF t.part = <<>> /\ Len(t.vis) >= 2 THEN MapS(Take(t.vis, 3), LAMBDA c :
+              MEquiv(i, "drop_select", <<MDrop(0, <<Col(c)>>)>>,
+                     <<MSelect(0, MapS(SelectSeq(t.vis, LAMBDA d : d # c), LAMBDA d : Col(d)))>>, FALSE)) ELSE <<>>)
+        \* rename followed by its inverse
+        \o MapS(Take(t.vis, 2), LAMBDA c :
+              MEquiv(i, "rename_inverse", <<MRename(0, <<[c |-> Col(c), n |-> "tmp_q"]>>), MRename(0, <<[c |-> CN("tmp_q"), n |-> t.nm[c]]>>)>>, <<>>, FALSE))
+        \* a chain of slice_head vs the single combined slice
+        \o (IF t.part = <<>> THEN Flat(MapS(<<<<3, 0>>, <<4, 1>>, <<2, 2>>>>, LAMBDA s1 : MapS(<<<<2, 0>>, <<2, 1>>, <<3, 2>>, <<1, 5>>>>, LAMBDA s2 :
+              MEquiv(i, "slice_chain", <<MArrange(0, o2), MSlice(0, s1[1], s1[2]), MSlice(0, s2[1], s2[2])>>,
+                     <<MArrange(0, o2), MSlice(0, MinI(s2[1], MaxI(s1[1] - s2[2], 0)), s1[2] + s2[2])>>, FALSE)))) ELSE <<>>)
+        \* inner_join vs cross_join followed by filter
+        \o (IF ra # <<>> /\ rb # <<>> /\ t.part = <<>> /\ t.root \cap r.root = {} /\ i # 2
+            THEN MapS(<<Fn2("eq", Col(a), Col(ra[1])), Fn2("lt", Col(b), Col(rb[1])),
+                        Fn2("and", Fn2("eq", Col(a), Col(ra[1])), Fn2("ge", Col(b), Col(rb[1])))>>, LAMBDA on :
+                   MEquiv(i, "inner_vs_cross", <<MJoin(0, 2, <<on>>, "inner", "_r")>>, <<MCross(0, 2, "_r"), MFilter(0, <<on>>)>>, FALSE))
+            ELSE <<>>)
+        \* is_in(a, b) vs (x == a) | (x == b);  map vs the when / then chain
+        \o <<MEquiv(i, "isin_or", <<MMutate(0, <<KV("m", FnN("is_in", <<Col(a), LitI(2), LitI(-1)>>))>>)>>,
+                     <<MMutate(0, <<KV("m", Fn2("or", Fn2("eq", Col(a), LitI(2)), Fn2("eq", Col(a), LitI(-1))))>>)>>, FALSE),
+             MEquiv(i, "isin_or", <<MMutate(0, <<KV("m", FnN("is_in", <<Col(a), Col(b), LitN>>))>>)>>,
+                     <<MMutate(0, <<KV("m", Fn2("or", Fn2("eq", Col(a), Col(b)), Fn2("eq", Col(a), LitN)))>>)>>, FALSE),
+             MEquiv(i, "map_when", <<MMutate(0, <<KV("m", [k |-> "map", e |-> Col(a), ks |-> <<<<LitI(2), LitI(4)>>, <<LitI(-1)>>>>, vs |-> <<LitI(10), Col(b)>>, d |-> <<LitI(0)>>])>>)>>,
+                     <<MMutate(0, <<KV("m", Case2D(FnN("is_in", <<Col(a), LitI(2), LitI(4)>>), LitI(10), FnN("is_in", <<Col(a), LitI(-1)>>), Col(b), LitI(0)))>>)>>, FALSE),
+             MEquiv(i, "map_when", <<MMutate(0, <<KV("m", [k |-> "map", e |-> Col(a), ks |-> <<<<LitI(2)>>>>, vs |-> <<LitI(10)>>, d |-> <<>>])>>)>>,
+                     <<MMutate(0, <<KV("m", Case1D(FnN("is_in", <<Col(a), LitI(2)>>), LitI(10), Col(a)))>>)>>, FALSE)>>
+
+MovesEquiv(h, kn) ==
+    LET lc == LCur(h)
+        hasEquiv == FALSE
+    IN  EquivMoves(h, lc)
+        \o (IF lc = 1 /\ {"a", "b", "p"} \subseteq VisNames(h[1]) THEN <<MFilter(1, <<Fn2("ge", Col(ByName(h[1])["a"]), LitI(0))>>),
+                              MMutate(1, <<KV("a", Fn2("add", Col(ByName(h[1])["a"]), LitI(1)))>>),
+                              MArrange(1, <<Ord(Col(ByName(h[1])["b"]), FALSE, "first")>>),
+                              MDrop(1, <<Col(ByName(h[1])["p"])>>)>> ELSE <<>>)
+        \o (IF VisNames(h[lc]) = VisNames(h[2]) /\ h[lc].part = <<>>
+            THEN <<MEquiv(lc, "union_swap", <<MUnion(0, 2, FALSE)>>, <<[v |-> "union", i |-> 0, j |-> 2, distinct |-> FALSE, swap |-> TRUE]>>, TRUE),
+                   MEquiv(lc, "union_swap", <<MUnion(0, 2, TRUE)>>, <<[v |-> "union", i |-> 0, j |-> 2, distinct |-> TRUE, swap |-> TRUE]>>, TRUE)>> ELSE <<>>)
+
 =============================================================================
